@@ -4,6 +4,7 @@ package main
 // gate / pairing (C04), rate limiter executor (C05), internal.FailureResult.
 
 import (
+	"go/token"
 	"fmt"
 	"go/types"
 	"strings"
@@ -746,7 +747,15 @@ func c06ChannelOwner(c *Ctx) {
 						}
 					}
 				}
+			case *ssa.BinOp:
+				// comparing the channel (with nil) reads nothing from it
+				if x.Op != token.EQL && x.Op != token.NEQ {
+					handedOut()
+				}
 			case ssa.CallInstruction:
+				if bi, isB := x.Common().Value.(*ssa.Builtin); isB && (bi.Name() == "len" || bi.Name() == "cap") {
+					continue // occupancy / capacity of the semaphore: a read-only observation
+				}
 				cal := calleeOf(x.Common())
 				if cal == nil || depth > 3 || !c.P.InScope[origin(cal)] || x.Common().Value == v {
 					handedOut()
